@@ -336,6 +336,25 @@ func ruleCmpSignFlip(w *World, r *RuleResult) {
 			bad = append(bad, "a BigInt.Cmp result is returned at "+w.instrPos(p.Ret)+" on a path that never tests the sign of d")
 			continue
 		}
+		// coefficients are only meaningful for finite values: both Infinite tests must have failed
+		infD, infX := false, false
+		for _, d := range p.Decisions {
+			bo, isB := d.Cond.(*ssa.BinOp)
+			if !isB || bo.Op != token.EQL || d.Val {
+				continue
+			}
+			if k, isK := bo.Y.(*ssa.Const); isK && ci(k) == w.formConsts()["Infinite"] {
+				switch w.exprOf(f, bo.X).String() {
+				case "d.Form":
+					infD = true
+				case "x.Form":
+					infX = true
+				}
+			}
+		}
+		if !infD || !infX {
+			bad = append(bad, "coefficients are compared at "+w.instrPos(call)+" on a path where d or x may still be infinite (their coefficient is meaningless)")
+		}
 		if dsNeg != neg {
 			bad = append(bad, fmt.Sprintf("at %s the magnitude comparison is returned %s although d is %s", w.instrPos(p.Ret), map[bool]string{true: "negated", false: "as is"}[neg], map[bool]string{true: "negative", false: "non-negative"}[dsNeg]))
 		}
